@@ -902,6 +902,9 @@ def run_python(case):
                 fail = "non-zero expression returned without an event"
             else:
                 fail = _value_check(case, enc, ret_event, queried, cond)
+                if kind == "uncond":
+                    # verdict of the value clause alone, for the theorem/oracle tie (see _Out.__eq__)
+                    out.append("value_bad" if fail else "value_ok")
                 if fail is None and kind == "uncond" and not _has_reflexive(queried):
                     fail = _event_check(case, ret_event)
     if "malformed" in case and vclass is None and fail is None and case["malformed"] not in ("overlap_cond", "target_tag_other_graph"):
@@ -937,7 +940,8 @@ def request(case):
         doms.append([d["pop"], C.graph_sexp(G.all_nodes(gd), gd["di"], gd["bi"]), _topo(gd, case.get("topo_seed", 1) + k),
                      d["policy"]])
     if case["kind"] == "uncond":
-        return C.enc(["transport", "ctf_uncond", gs, doms, case["event"]])
+        # (ok <in the class of Props/C09Sound ctfTRu_sound_partial> <answer of ctfTRu>)
+        return C.enc(["ctftr", "uncond", gs, doms, case["event"]])
     return C.enc(["ctftr", "cond", gs, doms, case["outcomes"], case["conditions"]])
 
 
@@ -962,6 +966,14 @@ class _Out(list):
         if not ev_ok:
             _Out.stats["mismatch"] += 1
             return False
+        if len(self) > 4 and self[4] == "in_class":
+            # THEOREM / ORACLE TIE: the model says the input satisfies the decidable hypotheses of the proved value clause
+            # (ctfTRu_sound_partial: every item valued, no self-intervened variable, ctfSoundClass, a reading exists); then the exact oracle must have accepted the value, whatever known-finding class
+            # the input's signature falls in.  A contradiction is reported as a disagreement with this concrete input.
+            _Out.stats["in_theorem_class"] = _Out.stats.get("in_theorem_class", 0) + 1
+            if len(other) > 4 and other[4] == "value_bad":
+                _Out.stats["theorem_contradicted"] = _Out.stats.get("theorem_contradicted", 0) + 1
+                return False
         if self[2] == other[2]:
             _Out.stats["structural"] += 1
             return True
@@ -986,12 +998,19 @@ def canon_model(case, rep):
             # over a set-ordered list wins (CtfTr.finalChecksOrderSensitive): only the validator's verdict is compared
             _Out.stats["order_sensitive"] = _Out.stats.get("order_sensitive", 0) + 1
             return _Out(["valid-only", "invalid" if (rep[0] == "err" and rep[1] == "invalid") else "accepted"])
+    in_class = None
+    if case["kind"] == "uncond":
+        # (ok <in-class> <answer>): `CtfTr.ctfTRuInClass` = the decidable hypotheses of the value theorem of Algorithm 2
+        in_class, rep = rep[1] == "true", rep[2]
     if rep[0] == "err":
         return _Out(["err", "invalid" if rep[1] == "invalid" else "internal"])
     if rep[0] == "fail":
         return _Out(["fail"])
     enc, ev = rep[1], rep[2]
-    return _Out(["ok", _digest(case, enc), E.to_str_tree(enc), "none" if ev == "none" else sorted(E.to_str_tree(ev), key=json.dumps)])
+    out = _Out(["ok", _digest(case, enc), E.to_str_tree(enc), "none" if ev == "none" else sorted(E.to_str_tree(ev), key=json.dumps)])
+    if in_class is not None:
+        out.append("in_class" if in_class else "out_class")
+    return out
 
 
 def _key_class(case, res):
